@@ -198,6 +198,23 @@ class Replayer:
                             r = L.lzma_index_cat(reg[k], x, A)
                             if r != 0:
                                 L.lzma_index_end(x, A); ret = lz.retname(r); break
+                    elif op == "streams":
+                        # o.m Streams cat'ed one by one; digit d of o.n in base o.j selects the shape (IndexOps!StreamShape)
+                        shapes = {0: [], 1: [(8, 0)], 2: [(8, 5)], 3: [(8, 0), (9, 5)]}
+                        for d in range(o["m"]):
+                            x = L.lzma_index_init(A)
+                            for u, v in shapes[(o["n"] // j ** d) % j]:
+                                assert L.lzma_index_append(x, A, u, v) == 0
+                            r = L.lzma_index_cat(reg[k], x, A)
+                            if r != 0:
+                                L.lzma_index_end(x, A); ret = lz.retname(r); break
+                    elif op == "groups":
+                        # o.m times 512 equal Records (8, bit g of o.n)
+                        for g in range(o["m"]):
+                            for _ in range(512):
+                                r = L.lzma_index_append(reg[k], A, 8, (o["n"] >> g) & 1)
+                                if r != 0:
+                                    ret = lz.retname(r); break
                     elif op == "dup":
                         if inject and inject.random() < 0.5:
                             nth = inject.randrange(1, 7); cnt = [0]
